@@ -18,7 +18,7 @@ RULE = ("Grid x seeds: p in {2..8, 20, 60} (dag_full also p = 0, 1), k on the ha
         "the S seeds: total edge count against the exact Binomial(S*p(p-1)/2, k/(p-1)) tails (1e-12), per-pair adjacency "
         "frequency and per-pair direction frequency z-scores (<= 8), dispersion of the per-seed edge count, every node on "
         "every position of the ordering (p <= 6) and an ordering different from 0..p-1. Non-trivial = p >= 3, 0 < k < p-1, "
-        "ordering requested, at least one edge.")
+        "ordering requested, at least one edge. Also: dag_avg_deg(3000, k=0) over 24+ seeds, k = p-1 at p = 1500, dag_full on 2049 and 2600 nodes (numpy-level validity oracle).")
 ASSUMPTIONS = [
     "W with and without return_ordering need not be equal; -0.0 == 0",
     "statistical bounds: exact binomial tail 1e-12, |z| <= 8 (per-statistic false-alarm probability < 1e-12 for a correct generator)",
